@@ -1,12 +1,15 @@
 package core
 
 import (
+	"errors"
 	"fmt"
 	"strings"
 	"sync"
 	"testing"
 
 	erpc "github.com/henrylee2cn/erpc/v6"
+	"github.com/henrylee2cn/erpc/v6/socket"
+	"github.com/henrylee2cn/erpc/v6/xfer"
 	"pgregory.net/rapid"
 
 	"verifharness/vt"
@@ -43,6 +46,7 @@ type recPlugin struct {
 	log     *hookLog
 	enabled map[string]bool
 	veto    string // stage at which this plugin vetoes ("" = never)
+	vetoPad int    // > 0: the veto status carries a cause of that many bytes
 }
 
 func (p *recPlugin) Name() string { return p.name }
@@ -53,6 +57,9 @@ func (p *recPlugin) at(stage string) *erpc.Status {
 	}
 	p.log.add(p.name + ":" + stage)
 	if p.veto == stage {
+		if p.vetoPad > 0 {
+			return erpc.NewStatus(880, "veto by "+p.name, strings.Repeat("V", p.vetoPad))
+		}
 		return erpc.NewStatus(880, "veto by "+p.name, stage)
 	}
 	return nil
@@ -85,6 +92,7 @@ type plugSpec struct {
 	Where   string // gl | gr | group<k> | handler<k>
 	Late    bool   // attached after routes were registered (global only)
 	LateHow string // left | right
+	VetoPad int    // > 0: the veto status is that many bytes larger than the configured message size limit allows
 }
 
 type c09Case struct {
@@ -93,16 +101,67 @@ type c09Case struct {
 	SrvPlugs  []plugSpec
 	CliPlugs  []plugSpec // caller side: global only
 	Msgs      []c09Msg
-	HandlerAt []int // levels at which messages are sent (derived)
-	Unknown   bool  // unknown-call / unknown-push handlers are set (with their own plugins, "handler-1"); messages of level -1 go to unregistered routes
+	HandlerAt []int    // levels at which messages are sent (derived)
+	Unknown   bool     // unknown-call / unknown-push handlers are set (with their own plugins, "handler-1"); messages of level -1 go to unregistered routes (Not Found on the global container when no unknown handler is set)
 	Removed   []string // global plugins taken out again with PluginContainer().Remove before the traffic starts
+	SizeLimit int      // > 0: socket.SetMessageSizeLimit for the case (raw protocol only: the only shipped stream protocol that refuses to pack beyond it)
 }
 
 type c09Msg struct {
 	Kind  string // call | push
 	Level int
-	Act   string // ret | err
+	Act   string // ret | err, and the acts whose first REPLY write fails on a live connection (c09FailActs)
 }
+
+// c09FailActs are handler behaviours that make the first write of the REPLY fail for a
+// reason other than a closed connection; the framework then answers with a fallback 500.
+//
+//	badreply  the result is a value no body codec can marshal (a channel)
+//	badjson   the result's MarshalJSON returns an error
+//	badcodec  the handler asks for a reply body codec id that is not registered
+//	xferfail  the handler adds a transfer filter whose OnPack refuses this reply
+//	bigreply  the result is larger than the configured message size limit
+//	bigerr    the handler fails with a status larger than the configured message size limit
+var c09FailActs = []string{"badreply", "badjson", "badcodec", "xferfail"}
+var c09FailActsLimit = []string{"bigreply", "bigerr"}
+
+func c09ActFailsFirstWrite(act string) bool {
+	for _, a := range append(append([]string{}, c09FailActs...), c09FailActsLimit...) {
+		if a == act {
+			return true
+		}
+	}
+	return false
+}
+
+// c09BadJSON cannot be marshalled by the JSON body codec.
+type c09BadJSON struct{ Rid string }
+
+func (c09BadJSON) MarshalJSON() ([]byte, error) {
+	return nil, errors.New("c09: refuses to be marshalled")
+}
+
+// c09XferFail is a transfer filter that passes everything through except a payload
+// that carries its marker, which it refuses to pack.
+const (
+	c09XferID     = byte(0xC9)
+	c09XferMarker = "c09-UNPACKABLE-PAYLOAD"
+	c09NoCodecID  = byte(0xEC) // not a registered body codec
+)
+
+type c09XferFail struct{}
+
+func (c09XferFail) ID() byte     { return c09XferID }
+func (c09XferFail) Name() string { return "c09-failpack" }
+func (c09XferFail) OnPack(b []byte) ([]byte, error) {
+	if strings.Contains(string(b), c09XferMarker) {
+		return nil, errors.New("c09 filter: refuses to pack this payload")
+	}
+	return b, nil
+}
+func (c09XferFail) OnUnpack(b []byte) ([]byte, error) { return b, nil }
+
+func init() { xfer.Reg(c09XferFail{}) }
 
 func genPlug(t *rapid.T, name string, where string, canVeto bool) plugSpec {
 	p := plugSpec{Name: name, Where: where}
@@ -117,6 +176,9 @@ func genPlug(t *rapid.T, name string, where string, canVeto bool) plugSpec {
 func genC09(t *rapid.T, protos []vt.NamedProto) c09Case {
 	c := c09Case{Proto: rapid.SampledFrom(protos).Draw(t, "proto").Name}
 	c.Depth = rapid.IntRange(0, 3).Draw(t, "depth")
+	if c.Proto == "raw" && rapid.IntRange(0, 2).Draw(t, "limited") == 0 {
+		c.SizeLimit = rapid.SampledFrom([]int{4 << 10, 16 << 10}).Draw(t, "sizelimit")
+	}
 	id := 0
 	name := func() string { id++; return fmt.Sprintf("p%d", id) }
 	vetoBudget := 1
@@ -124,6 +186,9 @@ func genC09(t *rapid.T, protos []vt.NamedProto) c09Case {
 		p := genPlug(t, name(), where, vetoBudget > 0)
 		if p.Veto != "" {
 			vetoBudget--
+			if c.SizeLimit > 0 && rapid.Bool().Draw(t, "bigveto") {
+				p.VetoPad = c.SizeLimit
+			}
 		}
 		return p
 	}
@@ -175,17 +240,28 @@ func genC09(t *rapid.T, protos []vt.NamedProto) c09Case {
 		c.CliPlugs = append(c.CliPlugs, mk("gl"))
 	}
 	nm := rapid.IntRange(1, 6).Draw(t, "nmsgs")
+	acts := []string{"ret", "ret", "ret", "ret", "ret", "ret", "err", "err", "err"}
+	acts = append(acts, c09FailActs...)
+	if c.SizeLimit > 0 {
+		acts = append(acts, c09FailActsLimit...)
+	}
 	for i := 0; i < nm; i++ {
-		c.Msgs = append(c.Msgs, c09Msg{
+		m := c09Msg{
 			Kind: rapid.SampledFrom([]string{"call", "call", "push"}).Draw(t, "mkind"),
 			Level: func() int {
-				if c.Unknown && rapid.IntRange(0, 2).Draw(t, "tounknown") == 0 {
+				// level -1: a route that is not registered (served by the unknown handlers if they are set)
+				if rapid.IntRange(0, 2).Draw(t, "tounknown") == 0 {
 					return -1
 				}
 				return rapid.IntRange(0, c.Depth).Draw(t, "mlevel")
 			}(),
-			Act: rapid.SampledFrom([]string{"ret", "ret", "err"}).Draw(t, "mact"),
-		})
+		}
+		if m.Kind == "call" {
+			m.Act = rapid.SampledFrom(acts).Draw(t, "mact")
+		} else {
+			m.Act = rapid.SampledFrom([]string{"ret", "ret", "err"}).Draw(t, "mact")
+		}
+		c.Msgs = append(c.Msgs, m)
 	}
 	return c
 }
@@ -272,6 +348,17 @@ type c09Expect struct {
 	callerCode int32 // expected status code at the caller (call) / Push return
 	written    bool  // whether the message is written to the wire
 	handlerRun bool
+	replyFails bool // the first write of the REPLY fails on the live connection; a fallback 500 is written
+}
+
+// vetoer returns the plugin of chain that vetoes at stage (the one runStage stopped at).
+func vetoer(chain []plugSpec, stage string) plugSpec {
+	for _, p := range chain {
+		if p.has(stage) && p.Veto == stage {
+			return p
+		}
+	}
+	return plugSpec{}
 }
 
 func (c c09Case) expect(m c09Msg) c09Expect {
@@ -287,6 +374,9 @@ func (c c09Case) expect(m c09Msg) c09Expect {
 		runStage(&e.cli, cliChain, "PostWritePush") // its verdict only stops the stage
 		if runStage(&e.srv, srvGlobal, "PostReadPushHeader") {
 			return e
+		}
+		if m.Level < 0 && !c.Unknown {
+			return e // no such PUSH route and no unknown-push handler: dropped after the header stage
 		}
 		if runStage(&e.srv, srvHandler, "PreReadPushBody") {
 			return e
@@ -306,25 +396,49 @@ func (c c09Case) expect(m c09Msg) c09Expect {
 	runStage(&e.cli, cliChain, "PostWriteCall")
 	replyChain := srvGlobal
 	code := int32(0)
+	// a veto whose status does not fit into the configured message size limit cannot be written either
+	bigVeto := func(chain []plugSpec, stage string) bool {
+		return c.SizeLimit > 0 && vetoer(chain, stage).VetoPad > 0
+	}
 	switch {
 	case runStage(&e.srv, srvGlobal, "PostReadCallHeader"):
 		code = 880
+		e.replyFails = bigVeto(srvGlobal, "PostReadCallHeader")
+	case m.Level < 0 && !c.Unknown:
+		// no such CALL route and no unknown-call handler: Not Found, still on the global container
+		code = erpc.CodeNotFound
 	default:
 		replyChain = srvHandler
 		if runStage(&e.srv, srvHandler, "PreReadCallBody") {
 			code = 880
+			e.replyFails = bigVeto(srvHandler, "PreReadCallBody")
 		} else if runStage(&e.srv, srvHandler, "PostReadCallBody") {
 			code = 880
+			e.replyFails = bigVeto(srvHandler, "PostReadCallBody")
 		} else {
 			e.srv = append(e.srv, "<handler>:call")
 			e.handlerRun = true
-			if m.Act == "err" {
+			switch {
+			case m.Act == "err":
 				code = 4242
+			case m.Act == "bigerr":
+				code = 4243
+				e.replyFails = c.SizeLimit > 0
+			case c09ActFailsFirstWrite(m.Act):
+				e.replyFails = m.Act != "bigreply" || c.SizeLimit > 0
 			}
 		}
 	}
+	// The pre-write stage belongs to the message, not to the write attempt: it runs once,
+	// before the first attempt. If that attempt fails although the connection is alive, the
+	// call is answered with a fallback Internal Server Error instead; nothing was written
+	// successfully by the first attempt, so the post-write stage does not run.
 	runStage(&e.srv, replyChain, "PreWriteReply")
-	runStage(&e.srv, replyChain, "PostWriteReply")
+	if e.replyFails {
+		code = erpc.CodeInternalServerError
+	} else {
+		runStage(&e.srv, replyChain, "PostWriteReply")
+	}
 	// caller side, reading the reply
 	switch {
 	case runStage(&e.cli, cliChain, "PostReadReplyHeader"):
@@ -341,7 +455,7 @@ func (c c09Case) expect(m c09Msg) c09Expect {
 }
 
 func mkRec(spec plugSpec, log *hookLog) *recPlugin {
-	p := &recPlugin{name: spec.Name, log: log, enabled: map[string]bool{}, veto: spec.Veto}
+	p := &recPlugin{name: spec.Name, log: log, enabled: map[string]bool{}, veto: spec.Veto, vetoPad: spec.VetoPad}
 	for _, s := range spec.Stages {
 		p.enabled[s] = true
 	}
@@ -354,13 +468,39 @@ var c09SrvLog struct {
 	l *hookLog
 }
 
-func C09Call(ctx erpc.CallCtx, a *LibArg) (*LibRes, *erpc.Status) {
+func C09Call(ctx erpc.CallCtx, a *LibArg) (interface{}, *erpc.Status) {
 	c09SrvLog.Lock()
 	l := c09SrvLog.l
 	c09SrvLog.Unlock()
 	l.add("<handler>:call")
-	if a.Act == "err" {
+	return c09Result(ctx, a)
+}
+
+// c09ReplyCtx is what the registered and the unknown CALL handler contexts share.
+type c09ReplyCtx interface {
+	SetBodyCodec(byte)
+	AddXferPipe(filterID ...byte)
+}
+
+// c09Result produces the handler's outcome for the requested act; a.Code is the number of
+// bytes that exceeds the case's message size limit (acts bigreply / bigerr).
+func c09Result(ctx c09ReplyCtx, a *LibArg) (interface{}, *erpc.Status) {
+	switch a.Act {
+	case "err":
 		return nil, erpc.NewStatus(4242, "no", "because")
+	case "badreply":
+		return make(chan int), nil
+	case "badjson":
+		return c09BadJSON{Rid: a.Rid}, nil
+	case "badcodec":
+		ctx.SetBodyCodec(c09NoCodecID)
+	case "xferfail":
+		ctx.AddXferPipe(c09XferID)
+		return &LibRes{Rid: a.Rid, Val: c09XferMarker}, nil
+	case "bigreply":
+		return &LibRes{Rid: a.Rid, Val: strings.Repeat("B", int(a.Code))}, nil
+	case "bigerr":
+		return nil, erpc.NewStatus(4243, "no", strings.Repeat("E", int(a.Code)))
 	}
 	return &LibRes{Rid: a.Rid, Val: a.Val}, nil
 }
@@ -375,6 +515,10 @@ func C09Push(ctx erpc.PushCtx, a *LibArg) *erpc.Status {
 
 func runC09(c c09Case, protos []vt.NamedProto) []string {
 	vt.Init()
+	if c.SizeLimit > 0 {
+		socket.SetMessageSizeLimit(uint32(c.SizeLimit)) // process-global; vt.Init resets it as well
+		defer socket.SetMessageSizeLimit(0)
+	}
 	srvLog, cliLog := &hookLog{}, &hookLog{}
 	c09SrvLog.Lock()
 	c09SrvLog.l = srvLog
@@ -442,10 +586,7 @@ func runC09(c c09Case, protos []vt.NamedProto) []string {
 			if _, err := ctx.Bind(a); err != nil {
 				return nil, erpc.NewStatus(4400, "cannot bind", err.Error())
 			}
-			if a.Act == "err" {
-				return nil, erpc.NewStatus(4242, "no", "because")
-			}
-			return &LibRes{Rid: a.Rid, Val: a.Val}, nil
+			return c09Result(ctx, a)
 		}, up...)
 		srv.SetUnknownPush(func(ctx erpc.UnknownPushCtx) *erpc.Status {
 			srvLog.add("<handler>:push")
@@ -492,7 +633,7 @@ func runC09(c c09Case, protos []vt.NamedProto) []string {
 		e := c.expect(m)
 		s0, c0 := srvLog.len(), cliLog.len()
 		w0 := l.Pair.Written(vt.AtoB)
-		arg := &LibArg{Rid: fmt.Sprintf("m%d", i), Act: m.Act, Val: "v"}
+		arg := &LibArg{Rid: fmt.Sprintf("m%d", i), Act: m.Act, Val: "v", Code: int32(c.SizeLimit)}
 		var code int32
 		if m.Kind == "call" {
 			cmd := l.A.AsyncCall(routeOf("call", m.Level), arg, new(LibRes), make(chan erpc.CallCmd, 1))
@@ -550,10 +691,21 @@ func (c c09Case) nontrivial() bool {
 			return true
 		}
 	}
-	return veto || late && c.Depth >= 1
+	return veto || late && c.Depth >= 1 || c.replyFailures() > 0
 }
 
-const ruleC09 = "generated plugin arrangement on the receiving peer (0-4 global-left, 0-4 global-right, a chain of 0-3 nested router groups with 0-2 plugins each, 0-2 handler-level plugins per CALL route and 0-2 of their own per PUSH route at every level, optionally unknown-call / unknown-push handlers with 0-2 plugins of their own, 0-2 global plugins attached AFTER all routes exist via AppendLeft/AppendRight, and in a third of the cases some global plugins removed again with PluginContainer().Remove before the traffic) and 0-2 global plugins on the calling peer; each plugin records a generated subset of 15 stages and at most one plugin vetoes at one stage; 1-6 calls/pushes to handlers at generated nesting levels or to unregistered routes, handler returns or fails; reference model computes the exact per-message hook trace on both peers, the caller-visible status code, whether bytes may be written and whether the handler runs; non-trivial = >=2 plugins on one stage, a veto, or a late attachment with a nested group; distinct by arrangement"
+// replyFailures counts the messages of the case whose first REPLY write fails.
+func (c c09Case) replyFailures() int {
+	n := 0
+	for _, m := range c.Msgs {
+		if m.Kind == "call" && c.expect(m).replyFails {
+			n++
+		}
+	}
+	return n
+}
+
+const ruleC09 = "generated plugin arrangement on the receiving peer (0-4 global-left, 0-4 global-right, a chain of 0-3 nested router groups with 0-2 plugins each, 0-2 handler-level plugins per CALL route and 0-2 of their own per PUSH route at every level, optionally unknown-call / unknown-push handlers with 0-2 plugins of their own, 0-2 global plugins attached AFTER all routes exist via AppendLeft/AppendRight, and in a third of the cases some global plugins removed again with PluginContainer().Remove before the traffic) and 0-2 global plugins on the calling peer; each plugin records a generated subset of 15 stages and at most one plugin vetoes at one stage; 1-6 calls/pushes to handlers at generated nesting levels or to unregistered routes (with or without unknown handlers: Not Found on the global container), handler returns or fails, or the first write of the REPLY fails on the live connection (result no codec can marshal, MarshalJSON error, unregistered reply codec id, a transfer filter refusing the reply on pack, and - raw protocol under a generated 4/16 KiB message size limit - a result, a handler error status or a plugin's veto status beyond the limit); reference model computes the exact per-message hook trace on both peers (a failed first reply write: PreWriteReply once over the reply chain, no PostWriteReply, one fallback reply with code 500 at the caller), the caller-visible status code, whether bytes may be written and whether the handler runs; non-trivial = >=2 plugins on one stage, a veto, a late attachment with a nested group, or a failing first reply write; distinct by arrangement"
 
 func TestC09PluginOrder(t *testing.T) {
 	rec := vt.NewRec(t, "C09", "order", ruleC09)
@@ -564,7 +716,17 @@ func TestC09PluginOrder(t *testing.T) {
 		for _, p := range c.SrvPlugs {
 			late = late || p.Late
 		}
-		rec.Case(fmt.Sprintf("%+v", c), c.nontrivial(), fmt.Sprintf("depth=%d", c.Depth), fmt.Sprintf("late=%v", late), fmt.Sprintf("removed=%d", len(c.Removed)))
+		classes := []string{fmt.Sprintf("depth=%d", c.Depth), fmt.Sprintf("late=%v", late), fmt.Sprintf("removed=%d", len(c.Removed)), fmt.Sprintf("replyfail=%v", c.replyFailures() > 0), fmt.Sprintf("limit=%v", c.SizeLimit > 0)}
+		for _, m := range c.Msgs {
+			if e := c.expect(m); m.Kind == "call" && e.replyFails {
+				if e.handlerRun {
+					classes = append(classes, "replyfail:"+m.Act)
+				} else {
+					classes = append(classes, "replyfail:bigveto")
+				}
+			}
+		}
+		rec.Case(fmt.Sprintf("%+v", c), c.nontrivial(), classes...)
 		if rec.WantSample() && c.nontrivial() {
 			rec.Sample(c)
 		}
